@@ -996,6 +996,13 @@ static void build_expr(WorkList *list, ASTNode *expr, Environment *env) {
                     emit_literal(list, ", ");
                     build_expr(list, expr->as.prefix_op.args[1], env);
                     emit_literal(list, ")");
+                } else if (op == TOKEN_SLASH || op == TOKEN_PERCENT) {
+                    /* nl_div / nl_mod: plain C a / b traps on INT64_MIN / -1 */
+                    emit_literal(list, op == TOKEN_SLASH ? "nl_div(" : "nl_mod(");
+                    build_expr(list, expr->as.prefix_op.args[0], env);
+                    emit_literal(list, ", ");
+                    build_expr(list, expr->as.prefix_op.args[1], env);
+                    emit_literal(list, ")");
                 } else {
                     /* Regular binary operator */
                     bool needs_parens = (op == TOKEN_PLUS || op == TOKEN_MINUS || 
